@@ -242,7 +242,7 @@ func ruleC05All(p *Prog, r *Result) {
 					if n != 0 {
 						return false, "a nil document is encoded (as 'null') instead of being written as an empty document"
 					}
-					if first == -1 && !wrote {
+					if first != 1 && !wrote {
 						return false, "an empty document after the first is dropped from the stream"
 					}
 					if first == 1 && wrote {
